@@ -20,19 +20,25 @@ def register(PROPS):
                  'FREQ=YEARLY with BYDAY=MO,TU,WE,TH,FR (alone, with BYMONTH=1, with BYMONTH=12) / BYMONTH=1,12;BYMONTHDAY=1,31, each with BYSETPOS in {1, -1, 2, -2, "1,-1"} '
                  'and every SHIFT spec with |N| <= 10 (thorough 20; days, B, and the six zero forms), DTSTART 2019-01-01, judged to the end of 2023 (thorough 2035): the date BYSETPOS '
                  'selects in each period is computed independently (weekday / day-of-month arithmetic), every occurrence must be an image of a selected date, '
-                 'every selected date on or after DTSTART whose images lie in the window must occur, strictly increasing.',
+                 'every selected date on or after DTSTART whose images lie in the window must occur, strictly increasing.  '
+                 'Family timed has a TIME of day and a list of times: DTSTART:20200101T090000Z, FREQ=MONTHLY with BYMONTHDAY=1,-1 / 1,31 / 1,2,-1 / BYDAY=SA,SU;BYSETPOS=1,-1 and '
+                 'FREQ=YEARLY;BYMONTH=1,12 with BYMONTHDAY=1,31 / 1,2,31, each with BYHOUR=9,17 / BYHOUR=9,17;BYMINUTE=0,30 / BYMINUTE=0,30 / BYSECOND=0,30 / BYHOUR=9 / no list, and SHIFT in '
+                 '{0B, 0B+, -0B, 0B-, +-1B, +-2B, +-3B, +-5B, 0, +-1, +-2}, read to the end of 2030: the days of the stream are the days of the same rule read as an all-day rule without the lists '
+                 '(DTSTART;VALUE=DATE:20200101, the stream the other families judge), every day exactly once with exactly the listed times, strictly increasing - in particular dates of adjacent '
+                 'periods that a business-day shift puts on one day (Sat 2020-02-29 and Sun 2020-03-01 -> Mon 03-02) come once - and with COUNT=c (c = 1..24) the stream is exactly the first c instants of the unlimited one.',
         'note': 'Where README + property text are silent the oracle accepts every defensible reading (see assumptions), so it is lenient there; '
-                'combined specs (SHIFT=x,yB), FREQ=MONTHLY rules other than those of the multi, mstart and setpos families, timed DTSTARTs and other BY* parts together with SHIFT/BYEASTER are not in the grammar '
+                'combined specs (SHIFT=x,yB), FREQ=MONTHLY rules other than those of the multi, mstart, setpos and timed families, timed DTSTARTs and BYHOUR/BYMINUTE/BYSECOND lists outside the timed family and other BY* parts together with SHIFT/BYEASTER are not in the grammar '
                 '(C16 covers their ordering and bounds).',
         'rule': 'easter: a case is one N (one stream, 199 year-offsets inside; evaluations count year-offsets); shift: a case is one (family, spec, month) '
                 'with one stream per day of the month inside (evaluations count streams).  Cases are distinct by construction; non-trivial = every easter '
-                'case, and every shift case whose spec is not the plain SHIFT=0 (which moves nothing); the sanitizer passes repeat cases and are not counted',
+                'case, and every shift case whose spec is not the plain SHIFT=0 (which moves nothing); timed: a case is one (SHIFT spec, rule, time list), evaluations count streams (the unlimited one and one per COUNT), non-trivial when the list has more than one time and the spec is not the plain SHIFT=0; the sanitizer passes repeat cases and are not counted',
         'bound': {
             'quick': 'BYEASTER complete (733 N x 199 years); SHIFT for N in {-8..8, +-31, +-258..262, +-300, +-366} x {days, B, B+, B-} + -0B, -0B- '
                      '(134 specs) x 366 rules x 3 families = 147 132 streams; plain family again under ASan; '
-                     'setpos: 9 rules x 5 BYSETPOS values x 46 specs (|N| <= 10) = 2070 streams to 2023, again under ASan',
+                     'setpos: 9 rules x 5 BYSETPOS values x 46 specs (|N| <= 10) = 2070 streams to 2023, again under ASan; '
+                     'timed: 17 specs x 6 rules x 6 time lists = 612 unlimited streams to 2030 + 24 COUNT streams each (15 300 streams), again under ASan',
             'thorough': 'BYEASTER complete; SHIFT complete: 2934 specs x 366 rules x 3 families = 3 221 532 streams; quick set again under ASan; '
-                        'setpos: 9 rules x 5 BYSETPOS values x 86 specs (|N| <= 20) = 3870 streams to 2035',
+                        'setpos: 9 rules x 5 BYSETPOS values x 86 specs (|N| <= 20) = 3870 streams to 2035; timed as in quick',
         },
         'drivers': [
             D('c17_easter_shift', ['mode=long', 'nlist=quick', 'ymax=1945'], ['mode=long', 'nlist=all', 'ymax=1961'], label='shift-long'),
@@ -51,6 +57,8 @@ def register(PROPS):
               ['mode=shift', 'fam=until', 'nlist=all', '--sample-every', '1777'], label='shift-until'),
             D('c17_easter_shift', ['mode=easter', 'nocount=1', '--samples', '0'], label='easter-asan', variant='asan', shards=8),
             D('c17_easter_shift', ['mode=shift', 'fam=plain', 'nlist=quick', 'nocount=1', '--samples', '0'], label='shift-plain-asan', variant='asan'),
+            D('c17_easter_shift', ['mode=timed', '--sample-every', '29'], label='shift-timed', shards=4),
+            D('c17_easter_shift', ['mode=timed', 'nocount=1', '--samples', '0'], label='shift-timed-asan', variant='asan', shards=4),
         ],
         'assumptions': [
             'Easter Sunday = anonymous Gregorian algorithm (Meeus ch. 8), harness/ref/computus.h, self-tested against 20 published dates; '
@@ -68,6 +76,8 @@ def register(PROPS):
             '(business-day shifts with weekend candidates, whose images coincide) selecting before or after the shift differ; in such a period every candidate is accepted and none is demanded.  '
             'A selected date before DTSTART whose image lies on or after it may or may not occur.  Shifts of more than 20 (business) days are left out of this family: from the 31st they reach over '
             'two month ends, where occurrences are lost at cache refills (the known monthly findings)',
-            'occurrences are all-day (DTSTART;VALUE=DATE); an occurrence that is not a date of the calendar (month 13, 29 February of a common year) is a violation',
+            'timed: the day set of the timed rule is taken from the all-day reading of the same rule (a differential clause: BYHOUR/BYMINUTE/BYSECOND give a day its times, they do not select days); '
+            'the listed times are not before DTSTART\'s own time of day (09:00:00), so DTSTART\'s day keeps all of them; shifts of at most 5 (business) days',
+            'occurrences are all-day (DTSTART;VALUE=DATE) outside the timed family; an occurrence that is not a date of the calendar (month 13, 29 February of a common year) is a violation',
         ],
     }
